@@ -12,6 +12,9 @@ def main():
     pid, qual = sys.argv[1], sys.argv[2]
     sub = sys.argv[3] if len(sys.argv) > 3 and not sys.argv[3].startswith('--') else ''
     timeout = 30
+    if '--trace-after' in sys.argv:
+        import faulthandler
+        faulthandler.dump_traceback_later(int(sys.argv[sys.argv.index('--trace-after') + 1]), exit=True)
     if '--timeout' in sys.argv:
         timeout = int(sys.argv[sys.argv.index('--timeout') + 1])
     mod = importlib.import_module('checks.' + pid.lower())
